@@ -73,4 +73,18 @@ META = {
          "values) of the fold whose terms are exactly the statement's: weight 1/(k-1)*max(0, 1-alpha*positional) for real pairs, delta_empty "
          "at weight delta_empty for unit/empty pairs, category filter on either unit; never negative; division safe; TypeError otherwise.",
    note="Bounded only: GammaResults.gamma_cat / gamma_k. Known finding: gamma_k of an absent category (see known_findings.json)."),
+ "C06": dict(
+   technique="frame / effect contracts checked by a modular effect analysis over the real ASTs (RNG consumption, hash-order iteration, "
+             "writes through parameters / non-fresh objects propagated over a conservative call graph); schedules are not enumerated",
+   level="Sufficient condition, every obligation discharged on each run: the four functions handed to the executor and everything they may "
+         "call consume no RNG, iterate over no builtin set, write only objects they allocated; the sampler draws are submit arguments "
+         "(evaluated by the submitting thread in program order); results are read in submission order; no module state.",
+   note="Replay tool (not the proof): seeded gamma runs under a deferring reverse-order executor, one worker, repetition, another PYTHONHASHSEED."),
+ "C14": dict(
+   technique="frame clauses: (a) heap frame obligations of the deductive verifier (objects outside `modifies` unchanged at every exit; "
+             "results fresh and disjoint) for the functions under contract, (b) the effect analysis for every listed entry point",
+   level="Proved: best / soft alignment, valid_alignments, gamma_k_disorder, d() leave continuum and dissimilarity unchanged; copy, merge, "
+         "__add__, copy_flush return fresh objects sharing no mutable state. Effect analysis: no listed entry point writes through its "
+         "input parameters. Bounded (labelled): the remaining entry points by snapshot comparison.",
+   note="Assumed: deepcopy / sortedcontainers models; name-based call graph."),
 }
